@@ -33,6 +33,16 @@ Theorem C01_get_field_runtime_exclusions : forall X ord st t, wf_state st -> ok_
 Proof. exact get_field_rt_spec. Qed.
 Print Assumptions C01_get_field_runtime_exclusions.
 
+(* ARGS_COMBINED_SIZE hands the operator the sum of |original name| + |value| over the arguments
+   of the query string and of the body as sent - for ANY names (invalid UTF-8 bytes, letters whose
+   lower-case form has another length: the map keys the entries are grouped under do not matter) *)
+Theorem C01_combined_size_is_request_size : forall X ord st g p, st_args st g p ->
+  rt_excs st VArgsCombinedSize = [] ->
+  get_field X ord st (with_rt st (compile_target X (mk_rtarget false VArgsCombinedSize SelAll [])))
+  = [(VArgsCombinedSize, [], itoa (args_size (g ++ p)))].
+Proof. exact size_of_request. Qed.
+Print Assumptions C01_combined_size_is_request_size.
+
 (* SecRuleRemoveById: the remaining rules keep their configuration order *)
 Theorem C01_removal_keeps_order : forall rms rules, subseq (remove_rules rms rules) rules.
 Proof. exact remove_rules_subseq. Qed.
